@@ -108,7 +108,8 @@ impl St {
         }
     }
     /// score a clone, replace its (public) shape field, score again - and score a state rebuilt from the
-    /// mutated clone's own JSON: the score must be a function of what the state IS, not of its history
+    /// mutated clone's own JSON ON A FRESH THREAD: the score must be a function of what the state IS, not of its
+    /// history nor of what the thread did before
     pub fn reshape_then_score(&self) -> Option<(Option<f64>, Option<f64>)> {
         match self {
             St::Poly(s) => {
@@ -118,7 +119,7 @@ impl St {
                 c.shape = LineShape::from_radial(&c.shape.name.clone(), vec![0.5; c.shape.items.len()]).ok()?;
                 let a = c.score();
                 let fresh: PackedState<LineShape> = serde_json::from_value(serde_json::to_value(&c).ok()?).ok()?;
-                Some((a, fresh.score()))
+                Some((a, std::thread::spawn(move || fresh.score()).join().ok()?))
             }
             St::Mol(s) => {
                 let mut c = s.clone();
@@ -126,7 +127,7 @@ impl St {
                 c.shape = if c.shape.items.len() == 1 { MolecularShape2::from_trimer(0.637556, 120., 1.) } else { MolecularShape2::from_trimer(0.45, 100., 1.15) };
                 let a = c.score();
                 let fresh: PackedState<MolecularShape2> = serde_json::from_value(serde_json::to_value(&c).ok()?).ok()?;
-                Some((a, fresh.score()))
+                Some((a, std::thread::spawn(move || fresh.score()).join().ok()?))
             }
             St::Lj(s) => {
                 let mut c = s.clone();
@@ -134,7 +135,7 @@ impl St {
                 c.shape = if c.shape.items.len() == 1 { LJShape2::from_trimer(0.637556, 120., 1.) } else { LJShape2::from_trimer(0.45, 100., 1.15) };
                 let a = c.score();
                 let fresh: PotentialState<LJShape2> = serde_json::from_value(serde_json::to_value(&c).ok()?).ok()?;
-                Some((a, fresh.score()))
+                Some((a, std::thread::spawn(move || fresh.score()).join().ok()?))
             }
         }
     }
